@@ -3030,7 +3030,10 @@ class DataStoreMgr:
         data = self.data[self.workflow_id]
         for key, delta in self.deltas.items():
             if delta.ListFields():
-                apply_delta(key, delta, data)
+                # Apply a copy: added elements enter the store by reference,
+                # so merging "updated" into them would otherwise also alter
+                # the "added" part of the delta that is published afterwards.
+                apply_delta(key, deepcopy(delta), data)
 
     def apply_delta_checksum(self):
         """Construct checksum on deltas for export."""
